@@ -6,7 +6,7 @@
    (each entry carries which of its State() calls fails; directories in the way are part of d). *)
 From Coq Require Import List NArith Bool Permutation Sorted String.
 Import ListNotations.
-Require Import V.lib.Bytes V.models.SyncDir V.proofs.SyncDirProofs.
+Require Import V.lib.Bytes V.models.SyncDir V.proofs.SyncDirProofs V.models.SyncTree V.proofs.SyncTreeProofs.
 Open Scope N_scope.
 
 (* success: (1) names not matching the globs are untouched; (2) a matching name exists afterwards iff it is desired,
@@ -87,6 +87,51 @@ Theorem C23_order_independent : forall mt um out d content content', NoDup (name
 Proof. exact order_independent. Qed.
 Print Assumptions C23_order_independent.
 
+(* ================================================================== tree variant: osutil.EnsureTreeState (synctree.go)
+   Model: models/SyncTree.v. `foe t q` = the files of directory q of tree t (none if q does not exist), `R ... t q` = the
+   per-directory call EnsureDirStateGlobs(q, globs, content[q]) on q's initial files, ord1 / ord2 = the orders in which the
+   two `range subdirs` loops visit the directories. For EVERY tree with unique names per directory, content, glob
+   predicate, orders and failure point. *)
+
+(* success: the tree call IS the per-directory call on every visited directory (so C23_success_exact,
+   C23_success_desired_state apply to each `R t q`), directories not visited keep their files, and changed / removed are
+   the sorted unions of the per-directory lists joined with the directory path *)
+Theorem C23_tree_success_exact : forall mt um out content t ord1 ord2, NoDup ord1 -> WfC content -> (forall q, NoDup (names (foe t q))) ->
+  t_err (ensure_tree_state mt um out content t ord1 ord2) = false ->
+  (forall q, In q ord1 -> foe (t_tree (ensure_tree_state mt um out content t ord1 ord2)) q = r_dir (R mt um out content t q)
+                          /\ r_err (R mt um out content t q) = false)
+  /\ (forall q, ~ In q ord1 -> foe (t_tree (ensure_tree_state mt um out content t ord1 ord2)) q = foe t q)
+  /\ t_changed (ensure_tree_state mt um out content t ord1 ord2) = sort (flat_map (fun q => map (join q) (r_changed (R mt um out content t q))) ord1)
+  /\ t_removed (ensure_tree_state mt um out content t ord1 ord2) = sort (flat_map (fun q => map (join q) (r_removed (R mt um out content t q))) ord1).
+Proof. exact tree_success. Qed.
+Print Assumptions C23_tree_success_exact.
+
+(* the tree call fails exactly when the per-directory call of SOME visited directory fails, wherever it is in the order *)
+Theorem C23_tree_failure_points : forall mt um out content t ord1 ord2, NoDup ord1 -> WfC content -> (forall q, NoDup (names (foe t q))) ->
+  valid_tree_input mt content = true ->
+  (t_err (ensure_tree_state mt um out content t ord1 ord2) = true <-> exists q, In q ord1 /\ r_err (R mt um out content t q) = true).
+Proof. exact tree_failure_points. Qed.
+Print Assumptions C23_tree_failure_points.
+
+(* fail closed ACROSS directories: when any directory fails, nothing is reported changed; in every directory the erase
+   pass visits (ord2: all sub-directories, also those synchronised successfully before the failure and those not reached)
+   no entry matching the globs is left unless os.Remove cannot remove it; non-matching files are untouched everywhere;
+   directories visited by neither loop keep their files *)
+Theorem C23_tree_fail_closed : forall mt um out content t ord1 ord2, NoDup ord1 -> WfC content -> (forall q, NoDup (names (foe t q))) ->
+  valid_tree_input mt content = true -> t_err (ensure_tree_state mt um out content t ord1 ord2) = true ->
+  t_changed (ensure_tree_state mt um out content t ord1 ord2) = []
+  /\ (forall q n, mt n = false -> file_at (t_tree (ensure_tree_state mt um out content t ord1 ord2)) q n = file_at t q n)
+  /\ (forall q n v, In q ord2 -> mt n = true -> file_at (t_tree (ensure_tree_state mt um out content t ord1 ord2)) q n = Some v -> removable v = false)
+  /\ (forall q, ~ In q ord1 -> ~ In q ord2 -> foe (t_tree (ensure_tree_state mt um out content t ord1 ord2)) q = foe t q).
+Proof. exact tree_fail_closed. Qed.
+Print Assumptions C23_tree_fail_closed.
+
+(* a directory path with a component matching the globs, or a bad file name, is rejected before anything is touched *)
+Theorem C23_tree_bad_input_no_effect : forall mt um out content t ord1 ord2, valid_tree_input mt content = false ->
+  ensure_tree_state mt um out content t ord1 ord2 = mkT t [] [] true.
+Proof. exact tree_bad_input_no_effect. Qed.
+Print Assumptions C23_tree_bad_input_no_effect.
+
 (* ------------------------------------------------------------------ non-vacuity: the hypotheses are met by concrete runs *)
 Local Open Scope string_scope.
 Definition ex_mt := match_any [bs "snap.foo.*"].
@@ -104,3 +149,18 @@ Example C23_ex_fail_closed :
 Proof. vm_compute. repeat split. Qed.
 Example C23_ex_nodup : NoDup (names ex_dir) /\ umask_ok 18 [(bs "snap.foo.a", DReg (bs "new") 420 0)] = true.
 Proof. split; [|reflexivity]. repeat constructor; cbn; intuition discriminate. Qed.
+
+(* tree: a failure in directory b erases what was written in a, the stale file in a/x, and the emptied directories *)
+Definition ex_tree : tree := [([], []); ([bs "a"], []); ([bs "a"; bs "x"], [(bs "snap.foo.old", Reg (bs "o") 420)]); ([bs "b"], [(bs "keep", Reg (bs "k") 420)])].
+Definition ex_tcontent := [([bs "a"], [(bs "snap.foo.a", DReg (bs "new") 420 0)]); ([bs "b"], [(bs "snap.foo.b", DReg (bs "new") 420 3)])].
+Definition ex_ord := [[bs "a"]; [bs "b"]; []; [bs "a"; bs "x"]].
+Example C23_ex_tree_fail_closed :
+  let r := ensure_tree_state ex_mt 18 [] ex_tcontent ex_tree ex_ord ex_ord in
+  t_err r = true /\ t_changed r = [] /\ t_removed r = [bs "a/snap.foo.a"; bs "a/x/snap.foo.old"]
+  /\ t_tree r = [([], []); ([bs "b"], [(bs "keep", Reg (bs "k") 420)])].
+Proof. vm_compute. repeat split. Qed.
+Example C23_ex_tree_success :
+  let r := ensure_tree_state ex_mt 18 [] [([bs "a"], [(bs "snap.foo.a", DReg (bs "new") 420 0)])] ex_tree ex_ord ex_ord in
+  t_err r = false /\ t_changed r = [bs "a/snap.foo.a"] /\ t_removed r = [bs "a/x/snap.foo.old"]
+  /\ file_at (t_tree r) [bs "a"] (bs "snap.foo.a") = Some (Reg (bs "new") 420) /\ tlookup (t_tree r) [bs "a"; bs "x"] = None.
+Proof. vm_compute. repeat split. Qed.
